@@ -214,6 +214,9 @@ def one_history(ctx: Ctx, hid: int, nops: int, save: bool, src):
         if r < 0.25 and len(sheets.lst) < 7:
             nm = rng.choice(POOL) if rng.random() < 0.7 else None
             tn = rng.choice(["Table 1", rng.choice(POOL)])
+            if rng.random() < 0.3:
+                sib = rng.choice([x.name for x in sheets.lst])
+                nm = rng.choice([sib, sib.upper(), sib.lower(), sib.swapcase()])
             log.append(["add_sheet", nm, tn])
 
             def f(name, tn=tn):
@@ -229,6 +232,11 @@ def one_history(ctx: Ctx, hid: int, nops: int, save: bool, src):
             if len(s.tables) >= 7:
                 continue
             nm = rng.choice(POOL) if rng.random() < 0.7 else None
+            if rng.random() < 0.3 and len(s.tables):
+                # aimed at the duplicate test: the name of an existing sibling (which may be the empty string, or a name given
+                # by a rename), as it is or in another case
+                sib = rng.choice([t.name for t in s.tables])
+                nm = rng.choice([sib, sib.upper(), sib.lower(), sib.swapcase()])
             log.append(["add_table", sheets.ids[id(s)], nm])
             do_add(ctx, tables[id(s)], lambda name, s=s: s.add_table(name, num_rows=2, num_cols=2) if name is not None else s.add_table(num_rows=2, num_cols=2),
                    nm, {**where, "log": list(log)})
